@@ -53,8 +53,12 @@ pub fn run(jobs_path: &str, out_path: &str, workers: usize) -> Result<()> {
                     };
                     let err = reader.join().unwrap_or_default();
                     let text = String::from_utf8_lossy(&err);
-                    let tail: String = text.chars().rev().take(1500).collect::<String>().chars().rev().collect();
-                    let head: String = text.chars().take(600).collect();
+                    // default: the first 600 and the last 1500 characters; a job that needs every diagnostic asks for
+                    // "stderr_chars": N and gets the last N characters in "stderr" and an empty "stderr_head"
+                    let (tail, head): (String, String) = match job["stderr_chars"].as_u64() {
+                        Some(n) => (text.chars().rev().take(n as usize).collect::<String>().chars().rev().collect(), String::new()),
+                        None => (text.chars().rev().take(1500).collect::<String>().chars().rev().collect(), text.chars().take(600).collect()),
+                    };
                     use std::os::unix::process::ExitStatusExt;
                     let (rc, sig) = match status {
                         Some(st) => (st.code().unwrap_or(-1), st.signal().unwrap_or(0)),
